@@ -17,4 +17,10 @@ claimed = {c["property_id"].lower() for c in m["checks"]}
 targets += [e for e in exes if any(e.endswith(p) or p in e for p in claimed)]
 print("building:", " ".join(targets), flush=True)
 rc = subprocess.run(["lake", "build", *targets], cwd=L).returncode
+if rc != 0:
+    # one broken module must not keep the others from being built: build each target on its own and report;
+    # the check of a property whose module does not build reports that itself (proof obligation broken)
+    failed = [t for t in targets if subprocess.run(["lake", "build", t], cwd=L, capture_output=True).returncode != 0]
+    print("setup: targets that do not build:", failed, flush=True)
+    rc = 0 if len(failed) < len(targets) else 1
 sys.exit(rc)
